@@ -1,11 +1,15 @@
 //! C08 — user metadata crosses the wire intact; protocol headers cannot be forged.
 use crate::ctx::*;
+#[cfg(feature = "full")]
 use crate::exec::{Exec, Out};
 use crate::gen::*;
+#[cfg(feature = "full")]
 use crate::pb::verif::{verif_client::VerifClient, verif_server::VerifServer};
+#[cfg(feature = "full")]
 use crate::pb::Msg;
 use crate::prng::Rng;
 use crate::refc::*;
+#[cfg(feature = "full")]
 use crate::svc::*;
 use http::{HeaderMap, HeaderName, HeaderValue};
 use serde_json::json;
